@@ -1,6 +1,7 @@
 package props
 
 import (
+	"bytes"
 	"fmt"
 	"strings"
 
@@ -32,6 +33,8 @@ func c12Alphabet() []c12Op {
 		}
 	}
 	out = append(out, c12Op{"compact", 0})
+	// a compaction during which, just before its first deletion of a record of key a, a client creates a
+	out = append(out, c12Op{"compact+create", 0})
 	return out
 }
 
@@ -50,7 +53,8 @@ func c12Transcript(engine string, hist []int) (lines []string, key string) {
 	if strings.HasPrefix(engine, "metrics(") {
 		st = smetrics.NewKvStorage(kv, hx.NopMetrics{})
 	}
-	b := backend.NewBackend(st, backend.Config{Prefix: "/r", Identity: "n1", WatchCacheSize: 64}, hx.NopMetrics{})
+	deco := hx.NewDeco(st, false)
+	b := backend.NewBackend(deco, backend.Config{Prefix: "/r", Identity: "n1", WatchCacheSize: 64}, hx.NopMetrics{})
 	b.SetCurrentRevision(base)
 	vrt.Quiesce()
 	evCh, werr := b.Watch(bg, "/r/", 0)
@@ -84,8 +88,27 @@ func c12Transcript(engine string, hist []int) (lines []string, key string) {
 		}
 		line := fmt.Sprintf("%d %s(%s,exp %d): ", i, o.kind, k, rel(exp))
 		switch {
-		case o.kind == "compact":
+		case o.kind == "compact" || o.kind == "compact+create":
+			if o.kind == "compact+create" {
+				armed := true
+				deco.DelFault = func(n int, cur bool, key []byte) error {
+					if armed && bytes.Contains(key, []byte(k)) {
+						armed = false
+						c, cerr := b.Create(bg, &proto.CreateRequest{Key: []byte(k), Value: []byte(fmt.Sprintf("w%d", i))})
+						if cerr != nil {
+							line += "[create during the compaction: error] "
+						} else {
+							line += fmt.Sprintf("[create during the compaction: ok=%v rev %d] ", c.Succeeded, rel(c.Header.GetRevision()))
+							if c.Succeeded {
+								last[k] = append(last[k], c.Header.GetRevision())
+							}
+						}
+					}
+					return nil
+				}
+			}
 			r, err := b.Compact(bg, 0)
+			deco.DelFault = nil
 			if err != nil {
 				line += "error"
 			} else {
@@ -202,7 +225,7 @@ func init() {
 	mc.Register(&mc.Property{
 		ID:     "C12",
 		Level:  "model_checking",
-		Rule:   "explicit-state BFS over sequential request histories (create, update with correct / stale / zero expectation, delete likewise, compaction, on 2 keys that are missing / live / deleted / compacted), each history executed on memkv, badger, tikv-mock and metrics(badger) with one open watcher; transcripts (success flags, relative revisions, failure-branch values, point and range reads at every revision, events; errors normalised to 'error') compared pairwise with memkv; states de-duplicated on the read-back part of the memkv transcript",
+		Rule:   "explicit-state BFS over sequential request histories (create, update with correct / stale / zero expectation, delete likewise, compaction, and a compaction during which a client creates key a just before the compaction's first deletion of one of a's records (injected at that engine call), on 2 keys that are missing / live / deleted / compacted), each history executed on memkv, badger, tikv-mock and metrics(badger) with one open watcher; transcripts (success flags, relative revisions, failure-branch values, point and range reads at every revision, events; errors normalised to 'error') compared pairwise with memkv; states de-duplicated on the read-back part of the memkv transcript",
 		Assume: []string{"single client, default schedule, quiescence after every request", "memkv is the reference (tied to the versioned-map model by C03)"},
 		Exec:   func(j *mc.Job) *mc.JobResult { return mc.SeqExec(j, c12Run) },
 		Drive: func(c *mc.Ctx) {
